@@ -73,30 +73,194 @@ def apply_history(ops: list[int]) -> Optional[str]:
         ev.calculate_logic_gates = saved  # type: ignore[assignment]
 
 
-def check(o1: int, o2: int, o3: int) -> bool:
+def pre(o1: int, o2: int, o3: int, o4: int) -> bool:
+    n = CFG.get("len", 3)
+    ops = [o1, o2, o3, o4]
+    if any(o != 0 for o in ops[n:]) or not all(0 <= o <= 10 for o in ops[:n]):
+        return False
+    return o1 == CFG.get("o1", o1) and o2 == CFG.get("o2", o2)
+
+
+def check(o1: int, o2: int, o3: int, o4: int) -> bool:
     """
-    pre: 0 <= o1 <= 10 and 0 <= o2 <= 10 and 0 <= o3 <= 10 and o1 == CFG.get("o1", o1)
+    pre: pre(o1, o2, o3, o4)
     post: _
     """
     path_tick()
-    return apply_history([o1, o2, o3]) is None
+    return apply_history([o1, o2, o3, o4][:CFG.get("len", 3)]) is None
 
 
-def twin(o1: int, o2: int, o3: int) -> bool:
+def twin(o1: int, o2: int, o3: int, o4: int) -> bool:
     """
-    pre: 0 <= o1 <= 10 and 0 <= o2 <= 10 and 0 <= o3 <= 10 and o1 == CFG.get("o1", o1)
+    pre: pre(o1, o2, o3, o4)
     post: not _
     """
-    return apply_history([o1, o2, o3]) is None
+    return apply_history([o1, o2, o3, o4][:CFG.get("len", 3)]) is None
 
 
 def replay(args: list[Any], c: dict[str, Any]) -> dict[str, Any]:
-    msg = apply_history([int(a) for a in args])
+    msg = apply_history([int(a) for a in args][:c.get("len", 3)])
     return {"violates": msg is not None, "sig": "model-roundtrip", "what": msg or "history keeps cache and model coherent"}
 
 
 try:
     apply_history([2, 10, 9])
     apply_history([7, 8, 10])
+except Exception:  # noqa
+    pass
+
+
+# --------------------------------------------------------------------------
+# chunked learning through the real model plumbing (pv_streams_to_puml_files, save/load of <job>_model.json),
+# compared at the level of the LEARNED STATE; the diagram stages of pv_to_puml_string are stubbed out
+# --------------------------------------------------------------------------
+import io as _io
+
+import tel2puml.pv_to_puml.pv_to_puml as pvp
+
+FILES: dict[str, str] = {}
+JOBNAMES = ["wf", "Order Service"]
+JOBS = [[("A", None), ("B", 0), ("C", 1)], [("A", None), ("D", 0), ("C", 1)], [("X", None), ("B", 0), ("C", 1)]]
+
+
+class _W(_io.StringIO):
+    def __init__(self, path: str):
+        super().__init__()
+        self.path = path
+
+    def close(self) -> None:
+        FILES[self.path] = self.getvalue()
+        super().close()
+
+
+def _open(path: str, mode: str = "r", **_k: Any) -> Any:
+    if "w" in mode:
+        return _W(path)
+    return _io.StringIO(FILES[path])
+
+
+class _Path:
+    @staticmethod
+    def isfile(p: str) -> bool:
+        return p in FILES
+
+    @staticmethod
+    def join(*a: str) -> str:
+        return "/".join(a)
+
+
+class _OS:
+    path = _Path
+
+
+class _Quiet:
+    @staticmethod
+    def write(*_a: Any, **_k: Any) -> None:
+        return None
+
+
+class _Diagram:
+    def write_puml_string(self, name: str) -> str:
+        return f"stub diagram of {name}"
+
+
+def job_events(j: int, tag: str) -> list[dict[str, Any]]:
+    out = []
+    for i, (typ, prev) in enumerate(JOBS[j]):
+        e: dict[str, Any] = {"jobId": f"{tag}{j}", "eventId": f"{tag}{j}e{i}", "eventType": typ, "timestamp": "t",
+                             "applicationName": "app", "jobName": "n"}
+        if prev is not None:
+            e["previousEventIds"] = [f"{tag}{j}e{prev}"]
+        out.append(e)
+    return out
+
+
+def model_state(path: str) -> Any:
+    data = json.loads(FILES[path])
+    return (data["job_name"], sorted(
+        (e["eventType"],
+         sorted(sorted((c["eventType"], c["count"]) for c in s) for s in e["outgoingEventSets"]),
+         sorted(sorted((c["eventType"], c["count"]) for c in s) for s in e["incomingEventSets"])) for e in data["events"]))
+
+
+def chunked(in_second: list[int], name_idx: int) -> Optional[str]:
+    name = JOBNAMES[name_idx]
+    FILES.clear()
+    stubs = {"create_graph_from_events": lambda evs: None, "detect_loops": lambda g: None,
+             "create_node_graph_from_event_graph": lambda g: None, "update_nested_node_graph_with_break_points": lambda g: None,
+             "find_and_add_loop_kill_paths_to_nested_graphs": lambda g: None, "walk_nested_graph": lambda g: _Diagram(),
+             "update_nested_sub_graphs_for_dummy_break_event_nodes": lambda g: None,
+             "remove_dummy_start_and_end_events_from_nested_graphs": lambda g: None, "tqdm": _Quiet, "open": _open, "os": _OS}
+    saved = {k: getattr(pvp, k, None) for k in stubs}
+    saved_ev = (getattr(ev, "open", None), ev.os)
+    for k, v in stubs.items():
+        setattr(pvp, k, v)
+    ev.open = _open  # type: ignore[attr-defined]
+    ev.os = _OS  # type: ignore[assignment]
+    try:
+        try:
+            first = [job_events(j, "a") for j in range(3) if not in_second[j]]
+            second = [job_events(j, "a") for j in range(3) if in_second[j]]
+            pvp.pv_streams_to_puml_files([(name, [job_events(j, "s") for j in range(3)])], "/single", {}, True)
+            pvp.pv_streams_to_puml_files([(name, first)], "/run1", {}, True)
+            models = [p for p in FILES if p.startswith("/run1/") and p.endswith("_model.json")]
+            if len(models) != 1:
+                return f"first run wrote model files {models}"
+            loaded_name, loaded = ev.load_events_from_file(models[0])           # what -im does (otel_to_puml)
+            pvp.pv_streams_to_puml_files([(name, second)], "/run2", {loaded_name: loaded}, True)
+            m_single = [p for p in FILES if p.startswith("/single/") and p.endswith("_model.json")]
+            m_two = [p for p in FILES if p.startswith("/run2/") and p.endswith("_model.json")]
+            if len(m_single) != 1 or len(m_two) != 1:
+                return f"model files: {m_single} / {m_two}"
+        except Exception as e:  # noqa
+            return f"chunked learning raised {type(e).__name__}: {e}"
+        a, b = model_state(m_single[0]), model_state(m_two[0])
+        if a != b:
+            return (f"job {name!r}, second chunk = jobs {[j for j in range(3) if in_second[j]]}: model after save+load+update is {b}, "
+                    f"learning all jobs at once gives {a}")
+        return None
+    finally:
+        for k, v in saved.items():
+            if v is None:
+                if hasattr(pvp, k):
+                    delattr(pvp, k)
+            else:
+                setattr(pvp, k, v)
+        if saved_ev[0] is None:
+            del ev.open  # type: ignore[attr-defined]
+        else:
+            ev.open = saved_ev[0]  # type: ignore[attr-defined]
+        ev.os = saved_ev[1]  # type: ignore[assignment]
+
+
+def chunks(s0: bool, s1: bool, s2: bool, name_idx: int) -> bool:
+    """
+    pre: 0 <= name_idx <= 1 and (s0 or s1 or s2) and not (s0 and s1 and s2)
+    post: _
+    """
+    path_tick()
+    return chunked([s0, s1, s2], name_idx) is None
+
+
+def chunks_twin(s0: bool, s1: bool, s2: bool, name_idx: int) -> bool:
+    """
+    pre: 0 <= name_idx <= 1 and (s0 or s1 or s2) and not (s0 and s1 and s2)
+    post: not _
+    """
+    return chunked([s0, s1, s2], name_idx) is None
+
+
+_replay_ops = replay
+
+
+def replay(args: list[Any], c: dict[str, Any]) -> dict[str, Any]:  # noqa: F811
+    if c.get("kind") == "chunks":
+        msg = chunked([bool(a) for a in args[:3]], int(args[3]))
+        return {"violates": msg is not None, "sig": "chunked-learning-state", "what": msg or "chunked learning state equals single-run state"}
+    return _replay_ops(args, c)
+
+
+try:
+    chunked([False, True, True], 1)
 except Exception:  # noqa
     pass
